@@ -110,6 +110,7 @@ func runAttackMonitor(c *Ctx, id string) int {
 		run.Floor("attacks_sharing_an_attacker", int64(nStress*3*2*9/10))
 	} else {
 		run.Floor("cap_checks_at_transport_entry", 50000)
+		run.Floor("real_transport_cap_cases", int64(c.Pick(4, 16)*6*8/10))
 	}
 	run.FloorDistinct(c.Pick(2000, 500000))
 	return run.Finish()
@@ -172,6 +173,11 @@ func attackChild(c *Ctx, id string) int {
 			cb, _ := json.Marshal(cfg)
 			logCase(fmt.Sprintf(`{"cfg":%s,"burst":%d}`, cb, burst))
 			runBurst(run, cfg, burst, id)
+		}
+		if id == "C03" {
+			for i := 0; i < 6; i++ {
+				runRealCap(run, rng)
+			}
 		}
 	case "stress":
 		rng := rand.New(rand.NewSource(c.Seed*7919 + int64(atoi(1))))
@@ -503,6 +509,18 @@ func runStress(run *ev.Run, sc stressCase, filter string) {
 			ended = true
 			continue
 		default:
+		}
+		if sc.FailAt > 0 && tg.calls.Load() > int64(sc.FailAt)+int64(sc.Max)+1000 {
+			// The failing call stops the attack before it returns; only hits already handed to a
+			// worker, and the few ticks the loop's select may still pick over the closed stop
+			// channel (each with probability 1/2), can follow it.
+			viol("C02", "not-ended-after-targeter-failure", "stress", fmt.Sprintf("the targeter fails from call %d on (error %q), yet %d hits have been started and the attack goes on", sc.FailAt, fmt.Sprint(map[bool]error{true: errTargeter, false: tg.err}[tg.err == nil]), tg.calls.Load()), nil)
+			atk.Stop()
+			select {
+			case <-consumerDone:
+			case <-time.After(20 * time.Second):
+			}
+			return
 		}
 		if polls%200 != 199 {
 			time.Sleep(200 * time.Microsecond)
